@@ -331,11 +331,34 @@ Qed.
 Definition simple_ev (ev : cevent) : bool :=
   match ev with QReady _ | QCollFinish _ _ => false | _ => true end.
 
+(* the keyboard-interrupt branch of workerfinished: the stop flag is set (the session is locked),
+   the shutdown is triggered, then worker_errordown *)
+Lemma hr_kbd n d0 :
+  from HR d0 ((d <- get ;; put (d_set_shouldstop d true)) ;;; d_triggershutdown ;;; d_worker_errordown n).
+Proof.
+  intros d' o r H.
+  apply DSessionProofs.mbind_inv in H. destruct H as [(d1 & o1 & [] & o2 & H1 & H2 & ->)|(e & H1 & _)].
+  2:{ unfold mbind, get, put in H1. inversion H1. }
+  unfold mbind at 1, get, put in H1. inversion H1; subst d1 o1. clear H1. cbn [app].
+  assert (R1 : HR d0 (d_set_shouldstop d0 true) []) by hr_frame.
+  intros X0 S0 G0. destruct (R1 X0 S0 G0) as (S1 & G1 & X1 & C1).
+  assert (T : forall d3 o3 r3, d_triggershutdown (d_set_shouldstop d0 true) = (d3, o3, r3) ->
+              HRx (d_set_shouldstop d0 true) d3 o3).
+  { intros d3 o3 r3 H3. eapply trigger_HRx; [exact H3|]. intros _. left. left. reflexivity. }
+  apply DSessionProofs.mbind_inv in H2. destruct H2 as [(d3 & o3 & [] & o4 & H3 & H4 & ->)|(e & H3 & ->)].
+  - pose proof (HRx_HR_trans _ _ _ _ _ (T _ _ _ H3) (hr_errordown n d3 _ _ _ H4)) as T2.
+    destruct (T2 S1 G1) as (A & B & C & D). split; [exact A|]. split; [exact B|]. split; [exact C|].
+    intros k K. apply C1, D, K.
+  - destruct (T _ _ _ H3 S1 G1) as (A & B & C & D). split; [exact A|]. split; [exact B|]. split; [exact C|].
+    intros k K. apply C1, D, K.
+Qed.
+
 Lemma hr_handle ev d0 : simple_ev ev = true -> from HR d0 (d_handle ev).
 Proof.
   destruct ev as [n|n ids|n key fl|n i|n i|n i k oc|n i ms|n ixs| |n|n sk|n]; cbn [simple_ev d_handle];
     intros Hc; try discriminate; unfold hook; try (hr; fail).
-  unfold d_worker_workerfinished, hook. destruct sk; hr.
+  unfold d_worker_workerfinished, hook. destruct sk; try (hr; fail).
+  apply f_emit_same; [rr|apply HR_refl|]. apply hr_kbd.
 Qed.
 
 (* a scheduler operation performed while the guard holds *)
